@@ -24,3 +24,24 @@ if __name__ == "__main__":
     if len(sys.argv) > 1 and sys.argv[1] == "all":
         ok, d = translate_invhash()
         print("translate_invhash:", "ok" if ok else d)
+
+
+def miri_sig(chk):
+    """C18: run the dependency-free mini-crate that `#[path]`-includes /repo/src/probminhasher/sig.rs
+    natively and under Miri (memory-safety clause; an observation, not a proof)."""
+    import time, json
+    d = os.path.join(VERIF, "harness_sig")
+    env = dict(os.environ, CARGO_NET_OFFLINE="true")
+    t = time.time()
+    p = subprocess.run(["cargo", "run", "--offline", "-q"], cwd=d, env=env, stdout=subprocess.PIPE, stderr=subprocess.STDOUT, text=True, timeout=600)
+    native_ok = p.returncode == 0 and "sig_miri ok" in p.stdout
+    if not native_ok:
+        chk.failures.append({"kind": "impl_violates_property", "what": "harness_sig native run failed (wrong bytes, assertion or crash)",
+                             "output": p.stdout[-800:], "replay": "cd /verif/harness_sig && cargo run --offline"})
+    m = subprocess.run(["cargo", "+nightly", "miri", "run"], cwd=d, env=env, stdout=subprocess.PIPE, stderr=subprocess.STDOUT, text=True, timeout=1200)
+    miri_ok = m.returncode == 0 and "sig_miri ok" in m.stdout
+    chk.cov["miri"] = {"ran": True, "ok": miri_ok, "native_ok": native_ok, "wall_s": round(time.time() - t, 1)}
+    if not miri_ok:
+        ub = [l for l in m.stdout.splitlines() if "Undefined Behavior" in l or "error:" in l][:3]
+        chk.failures.append({"kind": "impl_violates_property", "what": "Miri reports an error in a Sig implementation",
+                             "miri": ub, "output_tail": m.stdout[-600:], "replay": "cd /verif/harness_sig && cargo +nightly miri run"})
